@@ -73,6 +73,10 @@ CHECKS = {
              text="Exhaustive over the bounded program space (about 8 600 programs: all depth-1 forms over 10 leaves incl. strings containing 'True' and digit strings, comparison chains, conditionals, keyword calls, and all forms over a 16-element second level, each also in minimal-parentheses form): TLC computes the value Python assigns (typed: int / bool / str / list / tuple / integral float / raises), the engine must fail where Python raises and return an equal value where it succeeds, on the math, logic (bool-coerced) and auto pathways.",
              note="Trusted: TLC/SANY; the transcription is validated against CPython on every enumerated program at run time (a disagreement is reported as a machinery failure, never against the engine). Floats, transcendental functions and integers beyond 10^6 are outside the specification (DESIGN.md section 10) and skipped.",
              ref="DESIGN.md section 4 C02"),
+ "C01": dict(technique="TLA+ spec (EvalSem.tla: verdicts for constructs outside the allowed subset in evaluated / unevaluated positions; abstract size model with sound lower / upper bounds for the resource family) enumerated by TLC (MC_Evaluator); cases realised as source text and run on the real Mitochondria in killable child processes with audit / profile hooks; records judged by TLC (Trace_Evaluator.tla)",
+             text="TLC-enumerated: 21 construct kinds outside the allowed subset x 17 syntactic positions (evaluated, short-circuited, untaken branch) x concrete realisations x pathways, the tool pathway's callee forms, and a 254-element resource family (powers, products, repetition, factorials, towers) plus hand-written bombs; seeded arbitrary strings; the allow-list tables read from the current source. Every evaluation is timed from outside the process (K x timeout_seconds) under a memory limit, with audit and profile hooks recording exec / import / open / process events and denied builtins attributable to the engine or to code compiled from the expression.",
+             note="Trusted: TLC/SANY, CPython's audit events and profile hook, the realisations of each construct kind. The size model is validated against CPython on the computable part of the family in every run. 'All strings' is sampled; an unmodelled slow primitive can escape the enumerated family (DESIGN.md section 10).",
+             ref="DESIGN.md section 4 C01"),
 }
 NOT_APPLICABLE = []
 
